@@ -348,6 +348,7 @@ def run_case(run, tap, stream, index, rng):
             run.count("class:invalid_repeated")
             run.mark_nontrivial("invalid", kind, region, lon, lat)
     elif stream == "forms":
+        only = None
         for _ in range(4):
             w = float(rng.choice(LATTICE))
             e = float(rng.choice([v for v in LATTICE if abs(v - w) <= 360]))
@@ -382,4 +383,5 @@ def run_case(run, tap, stream, index, rng):
             if not (same_region and same_lon):
                 run.violation("forms", "the result depends on the call form (no coordinates / empty / 2-D / extra coordinates / integer dtype)",
                               {"region": region, "only": np.asarray(only), "empty": np.asarray(empty), "r2d": r2d, "r3": r3, "ri": ri}, key="forms")
-        run.sample("forms", {"region": region, "returned": np.asarray(only)})
+        if only is not None:
+            run.sample("forms", {"region": region, "returned": np.asarray(only)})
